@@ -25,9 +25,11 @@ PROP = dict(
               "both ends, negative index, all +0, all -0, mixed signed zeros, a single non-zero element first / middle / last) x real/complex x "
               "lengths 1..32,100,1000 with norm p in {default,1,2,3,4,8}; upsample/downsample len<=12 x factor<=12 x phase<min; "
               "linspace n=1..100 x 5 endpoint pairs; integer arange every (start,stop,step) in [-12,12]^3 and arange(stop) stop in [-12,12]; "
-              "fractional arange 4 starts x 6 dyadic steps x count 0..20 (3 template instantiations); repelem len<=6 x n<=5; flip len<=12; "
+              "fractional arange 4 starts x 6 dyadic steps x count 0..20 (3 template instantiations); long fractional arange starts "
+              "{0,-5,2.5,1e6} x non-dyadic steps {0.1,0.01,0.6,1/3,-0.7,1e-3} x counts {100,1000,10000} (every element against start+k*step "
+              "in long double within 8 eps*max(|start|,|k*step|,|result|), count, last element before stop); repelem len<=6 x n<=5; flip len<=12; "
               "zeropad len<=8 x pad<=8; delayseq (real) N<=10 x delay in [-12,12]",
-        thorough="as quick with array / reduction lengths every 1..256 and 1000"),
+        thorough="as quick with array / reduction lengths every 1..256 and 1000, long fractional arange also with count 100000"),
     deadline=dict(quick=150, thorough=1500),
     assumptions=COMMON_ASSUME + [
         "principal argument with atan2 conventions; a negative zero is also accepted as a plain zero: angle(0) in {0, atan2(im,re)}, "
@@ -41,7 +43,9 @@ PROP = dict(
         "stddev uses the n-1 normalisation (n >= 2 only), rms the n normalisation",
         "linspace(x1,x2,1) may be {x2} (MATLAB) or {x1}; its elements are compared at the scale max(|x1|,|x2|)",
         "fractional arange is only exercised with exactly representable (dyadic) steps so that the count (stop-start)/step is integral in "
-        "exact arithmetic, as the quantifier requires",
+        "exact arithmetic, as the quantifier requires; the long non-dyadic aranges use stop = start + count*step rounded to double "
+        "(count integral up to rounding): a library count one off the nominal count is treated as ambiguous and not judged, elements are "
+        "judged only when the count is the nominal one",
         "delayseq is exercised for real arrays only: delayseq<cmplx_t> does not compile (DESIGN F26, recorded with C18)",
     ],
 )
